@@ -455,13 +455,10 @@ def _tr(trace):
 def eval_sr(x, model):
     """value of an SR/SI/SB/number under a z3 model -> float/int/bool"""
     if isinstance(x, SR):
-        v = model.eval(x.z3(), model_completion=True)
-        if z3.is_rational_value(v):
-            return v.numerator_as_long() / v.denominator_as_long()
-        if z3.is_algebraic_value(v):
-            a = v.approx(20)
-            return a.numerator_as_long() / a.denominator_as_long()
-        return None
+        try:
+            return _eval_real(x, model, {})
+        except Exception:
+            return None
     if isinstance(x, SC):
         return [eval_sr(x.re, model), eval_sr(x.im, model)]
     if isinstance(x, SI):
@@ -483,6 +480,43 @@ def eval_sr(x, model):
     if isinstance(x, (list, tuple)):
         return [eval_sr(e, model) for e in x]
     return repr(x)
+
+
+def _eval_real(x, model, cache):
+    """float value of an SR under the model; atoms are evaluated by their real definition
+    (exp, log, sqrt, ...) rather than by the value z3 picked for them"""
+    import math
+
+    def var(v):
+        if v in cache:
+            return cache[v]
+        a = REG.atom.get(v)
+        if a is None or a[0] == 'opaque':
+            mv = model.eval(REG.z3c[v], model_completion=True)
+            if z3.is_int_value(mv):
+                r = float(mv.as_long())
+            elif z3.is_rational_value(mv):
+                r = mv.numerator_as_long() / mv.denominator_as_long()
+            else:
+                ap = mv.approx(20)
+                r = ap.numerator_as_long() / ap.denominator_as_long()
+        else:
+            kind, args = a
+            av = [_eval_real(t, model, cache) for t in args]
+            r = {'exp': math.exp, 'log': math.log, 'sqrt': math.sqrt, 'sin': math.sin, 'cos': math.cos,
+                 'arctan': math.atan, 'arctan2': math.atan2}[kind](*av)
+        cache[v] = r
+        return r
+
+    def poly(p):
+        tot = 0.0
+        for m, c in p.t.items():
+            t = float(c)
+            for v, e in m:
+                t *= var(v) ** e
+            tot += t
+        return tot
+    return poly(x.n) / poly(x.d)
 
 
 def _eval_obs(obs, model):
